@@ -42,15 +42,15 @@ type avcSPS struct {
 }
 
 type avcPPS struct {
-	ID, SPSID       int
-	CABAC           bool
-	BottomFieldPOC  bool
-	RedundantPicCnt bool
-	DeblockCtrl     bool
+	ID, SPSID          int
+	CABAC              bool
+	BottomFieldPOC     bool
+	RedundantPicCnt    bool
+	DeblockCtrl        bool
 	NumRefL0, NumRefL1 int
-	WeightedPred    bool
-	WeightedBipred  int
-	NAL             []byte
+	WeightedPred       bool
+	WeightedBipred     int
+	NAL                []byte
 }
 
 func highProfile(p int) bool {
